@@ -93,6 +93,28 @@ class ScopedIter(Generic[T]):
             await aclose
 
 
+async def close_all(iterators: Iterable[Any]) -> None:
+    """
+    Close all ``iterators`` that can be closed, even if closing some of them fails
+
+    If closing an iterator fails or is cancelled, the remaining iterators are still
+    closed; the first failure is propagated once all iterators have been handled.
+    """
+    failure: Optional[BaseException] = None
+    for iterator in iterators:
+        try:
+            aclose = iterator.aclose
+        except AttributeError:
+            continue
+        try:
+            await aclose()
+        except BaseException as err:  # noqa: B036
+            if failure is None:
+                failure = err
+    if failure is not None:
+        raise failure
+
+
 def borrow(iterator: AsyncIterator[T]) -> AsyncGenerator[T, None]:
     """Borrow an async iterator for iteration, preventing it from being closed"""
     return (item async for item in iterator)
